@@ -43,6 +43,7 @@ def Violates (env : Env) (s : ClientSettings) : ClientCheck → Prop
   | .baseClientClass => classDefinedIn env (baseClientData env s).2 (baseClientData env s).1 = false
   | .enumsModule => validName env s.enumsModuleName = false
   | .inputTypesModule => validName env s.inputTypesModuleName = false
+  | .fragmentsModule => validName env s.fragmentsModuleName = false
   | .filesToInclude => ∃ f ∈ s.filesToInclude, env.isFile f = false
 
 /-- the exception constructor that corresponds to check `k` (it names the offending value) -/
@@ -63,6 +64,7 @@ def Expected (env : Env) (s : ClientSettings) : ClientCheck → ConfigError → 
   | .baseClientClass, e => e = .classNotInFile (baseClientData env s).1 (baseClientData env s).2
   | .enumsModule, e => e = .badIdentifier s.enumsModuleName
   | .inputTypesModule, e => e = .badIdentifier s.inputTypesModuleName
+  | .fragmentsModule, e => e = .badIdentifier s.fragmentsModuleName
   | .filesToInclude, e => ∃ f ∈ s.filesToInclude, env.isFile f = false ∧ e = .notFile f
 
 /-- a check raises exactly when its constraint is violated -/
@@ -100,6 +102,7 @@ theorem check_raises_iff (env : Env) (s : ClientSettings) (k : ClientCheck) :
   case baseClientClass => cases classDefinedIn env (baseClientData env s).2 (baseClientData env s).1 <;> simp
   case enumsModule => exact identCheck_some_iff env _
   case inputTypesModule => exact identCheck_some_iff env _
+  case fragmentsModule => exact identCheck_some_iff env _
   case filesToInclude =>
     constructor
     · rintro ⟨e, he⟩
@@ -132,6 +135,7 @@ theorem check_error_expected (env : Env) (s : ClientSettings) (k : ClientCheck) 
   case baseClientClass => split at h <;> simp_all
   case enumsModule => exact identCheck_eq env _ e h
   case inputTypesModule => exact identCheck_eq env _ e h
+  case fragmentsModule => exact identCheck_eq env _ e h
   case filesToInclude => exact firstNonFile_some env _ e h
 
 /-- every exception a check raises is an ariadne-codegen exception class
@@ -220,9 +224,10 @@ example : clientPostInit exEnv { exSettings with clientName := "Client" } =
     .ok (finalizeClient exEnv { exSettings with clientName := "Client" }) := by decide
 
 /-- The DOCUMENTED constraints of the client strategy (README option table + property text):
-    what a user may rely on.  Two of them are stronger than what the code tests:
-    `fragments_module_name` must be a usable module name, and the base client class must be
-    declared in the file (not merely occur as a substring). -/
+    what a user may rely on.  One of them is stronger than what the code tests: the base client
+    class must be declared in the file (not merely occur as a substring; finding C17-F7).
+    (`fragments_module_name` must be a usable module name: tested since /repo 0686a80, which
+    repaired finding C17-F2.) -/
 structure Documented (env : Env) (s : ClientSettings) : Prop where
   queries : s.queriesPath ≠ "" ∨ s.enableCustomOperations = true
   source : s.schemaPath ≠ "" ∨ s.remoteSchemaUrl ≠ ""
@@ -262,6 +267,7 @@ theorem documented_no_violation (env : Env) (s : ClientSettings) (d : Documented
   case baseClientClass => simp [classDeclared_imp_definedIn env _ _ d.baseClientClass]
   case enumsModule => simp [d.enumsModule]
   case inputTypesModule => simp [d.inputTypesModule]
+  case fragmentsModule => simp [d.fragmentsModule]
   case filesToInclude => rintro ⟨f, hf, hn⟩; have := d.files f hf; simp_all
 
 /-- every configuration meeting the documented constraints is accepted -/
@@ -272,13 +278,39 @@ theorem documented_accepted (env : Env) (s : ClientSettings) (d : Documented env
 def badEnv : Env := { exEnv with isIdent := fun n => n != "not-valid" }
 def badSettings : ClientSettings := { exSettings with clientName := "Client", fragmentsModuleName := "not-valid" }
 
-/-- ... but the converse fails: the code accepts configurations that violate a documented
-    constraint (findings C17-F2 and C17-F7). -/
+/-- regression for the repaired finding C17-F2, at the level of `__post_init__`: the old witness
+    (`fragments_module_name = "not-valid"`, everything else in order) is rejected with the
+    identifier exception naming the value -/
+theorem F2_settings_now_rejected :
+    clientPostInit badEnv badSettings = .error (.badIdentifier "not-valid") := by decide
+
+/-- `__post_init__` as it was BEFORE /repo 0686a80 (the check of `fragments_module_name` absent).
+    Kept only to document what a regression looks like; nothing else refers to it. -/
+def orderBefore0686a80 : List ClientCheck := ClientCheck.order.filter (· != .fragmentsModule)
+def clientPostInitBefore0686a80 (env : Env) (s : ClientSettings) : Except ConfigError ClientSettings :=
+  match firstError (evalClientCheck env s) orderBefore0686a80 with
+  | some e => .error e
+  | none => .ok (finalizeClient env s)
+
+/-- the old code accepted the witness although it violates a documented constraint (what C17-F2 was) -/
+theorem before_0686a80_accepted_undocumented :
+    (∃ s', clientPostInitBefore0686a80 badEnv badSettings = .ok s') ∧ ¬ Documented badEnv badSettings := by
+  refine ⟨⟨finalizeClient badEnv badSettings, by decide⟩, fun d => ?_⟩
+  have := d.fragmentsModule
+  revert this
+  decide
+
+def prefEnv : Env := { exEnv with readText := fun _ => "class MyBaseClient:" }
+def prefSettings : ClientSettings :=
+  { exSettings with clientName := "Client", baseClientName := "MyBase", baseClientFilePath := "/w/custom_base.py" }
+
+/-- ... but the converse still fails: the code accepts a configuration that violates a documented
+    constraint (finding C17-F7; C17-F2 was the other such case until /repo 0686a80). -/
 theorem accepted_not_documented :
     ¬ (∀ env s, (∃ s', clientPostInit env s = .ok s') → Documented env s) := by
   intro h
-  have d := h badEnv badSettings ⟨finalizeClient badEnv badSettings, by decide⟩
-  have := d.fragmentsModule
+  have d := h prefEnv prefSettings ⟨finalizeClient prefEnv prefSettings, by decide⟩
+  have := d.baseClientClass
   revert this
   decide
 
@@ -673,7 +705,7 @@ def C17_full : Prop := ∀ r : ClientRun, InDomain r → Invalid r → RejectedU
 
 /-- complement of the finding triggers -/
 def Supported (r : ClientRun) : Prop :=
-  ¬ (trigFragmentsModuleName r.env r.cfg = true ∨ trigInvalidSchemaAssumed r.schema r.plugins = true ∨
+  ¬ (trigInvalidSchemaAssumed r.schema r.plugins = true ∨
      trigSchemaBuildTypeError r.schema = true ∨ trigFragmentGenError r.queries = true ∨
      trigNoGraphqlFiles r = true ∨ trigClassSubstring r.env r.cfg = true)
 
@@ -696,7 +728,8 @@ def wBase : ClientRun := {
 def wInvalidSchema : ClientRun := { wBase with schema := { wBase.schema with trueErrors := 1 } }
 /-- F4: unknown type — graphql-core's TypeError escapes -/
 def wUnknownType : ClientRun := { wBase with schema := { wBase.schema with buildError := some "Unknown type: 'Missing'.", trueErrors := 1 } }
-/-- F2: `fragments_module_name = "not-valid"` — accepted by the settings -/
+/-- F2 (fixed by /repo 0686a80): `fragments_module_name = "not-valid"` — was accepted by the
+    settings, is rejected now (`C17_F2_witness_now_ok` below) -/
 def wFragmentsModule : ClientRun :=
   { wBase with env := badEnv, cfg := wCfg [("fragments_module_name", .str "not-valid")] }
 /-- F6: a schema directory without graphql files -/
@@ -730,8 +763,6 @@ theorem no_files_untyped :
   have : (getClientSettings wNoFiles.env wNoFiles.cfg).result.toOption.map (·.schemaPath) = some "schema.graphql" := by decide
   rw [hs] at this
   simp [Except.toOption, h] at this
-
-theorem fragments_module_accepted : isOk (client wFragmentsModule).result = true := by decide
 
 /-- **C17_full_false**: the property as stated does not hold of the code (model): an invalid schema
     is accepted and a package is written (finding C17-F3). -/
@@ -795,7 +826,6 @@ example : trigFragmentGenError wBase.queries = false ∧ ∀ st, wBase.codeError
 /-! ### the part of C17 that holds -/
 
 theorem documented_of_no_violation (env : Env) (s : ClientSettings) (h : ∀ k, ¬ Violates env s k)
-    (hf : validName env s.fragmentsModuleName = true)
     (hc : classDeclared env (baseClientData env s).2 (baseClientData env s).1 = true) : Documented env s where
   queries := by
     have := h .queriesRequired; simp only [Violates] at this
@@ -833,13 +863,33 @@ theorem documented_of_no_violation (env : Env) (s : ClientSettings) (h : ∀ k, 
   baseClientClass := hc
   enumsModule := by have := h .enumsModule; simp only [Violates] at this; simpa using this
   inputTypesModule := by have := h .inputTypesModule; simp only [Violates] at this; simpa using this
-  fragmentsModule := hf
+  fragmentsModule := by have := h .fragmentsModule; simp only [Violates] at this; simpa using this
   files := by
     intro f hfm
     have := h .filesToInclude; simp only [Violates] at this
     cases he : env.isFile f with
     | true => rfl
     | false => exact absurd ⟨f, hfm, he⟩ this
+
+/-- **accepted_iff_documented**: with C17-F2 repaired, acceptance by `__post_init__` and the
+    documented constraints differ ONLY by finding C17-F7 — where the base client class is really
+    declared in the file, the settings are accepted exactly when every documented constraint holds -/
+theorem accepted_iff_documented (env : Env) (s : ClientSettings)
+    (hc : classDefinedIn env (baseClientData env s).2 (baseClientData env s).1 = true →
+          classDeclared env (baseClientData env s).2 (baseClientData env s).1 = true) :
+    (∃ s', clientPostInit env s = .ok s') ↔ Documented env s := by
+  constructor
+  · intro h
+    have hnv := (accepted_iff env s).mp h
+    refine documented_of_no_violation env s hnv (hc ?_)
+    have := hnv .baseClientClass
+    simp only [Violates] at this
+    simpa using this
+  · intro d; exact ⟨_, documented_accepted env s d⟩
+
+example : Documented exEnv { exSettings with clientName := "Client" } :=
+  (accepted_iff_documented exEnv _ (by decide)).mp
+    ⟨finalizeClient exEnv { exSettings with clientName := "Client" }, by decide⟩
 
 theorem finalize_keeps (env : Env) (s0 : ClientSettings) :
     (finalizeClient env s0).fragmentsModuleName = s0.fragmentsModuleName ∧
@@ -856,7 +906,7 @@ theorem passes_contradict (r : ClientRun) (hd : InDomain r) (hs : Supported r) (
     (h2 : loadSchema (s.schemaPath != "") r.schema = .ok sch)
     (h5 : (s.queriesPath != "") = true → loadQueries r.queries = .ok ()) : False := by
   simp only [Supported, not_or] at hs
-  obtain ⟨hF2, hF3, hF4, _, hF6, hF7⟩ := hs
+  obtain ⟨hF3, hF4, _, hF6, hF7⟩ := hs
   rcases hi with hc | hsyn | hsch | hop
   · -- configuration
     unfold ConfigInvalid at hc
@@ -875,11 +925,6 @@ theorem passes_contradict (r : ClientRun) (hd : InDomain r) (hs : Supported r) (
       obtain ⟨k1, k2, k3, _, _⟩ := finalize_keeps r.env s0
       apply hc
       apply documented_of_no_violation r.env s0 hnv
-      · simp only [trigFragmentsModuleName, h1] at hF2
-        rw [hs', k1] at hF2
-        cases hv : validName r.env s0.fragmentsModuleName with
-        | true => rfl
-        | false => simp [hv] at hF2
       · simp only [trigClassSubstring, h1] at hF7
         rw [hs', k2, k3] at hF7
         cases hv : classDeclared r.env (baseClientData r.env s0).2 (baseClientData r.env s0).1 with
@@ -916,7 +961,8 @@ theorem passes_contradict (r : ClientRun) (hd : InDomain r) (hs : Supported r) (
     have hq' : (s.queriesPath != "") = true := by simpa using hq
     exact hv (loadQueries_ok _ (h5 hq')).2
 
-/-- **C17_partial**: outside the six finding triggers, every input of the four invalid classes
+/-- **C17_partial**: outside the five finding triggers (six before /repo 0686a80 repaired C17-F2:
+    the region of this theorem grew by the old `fragmentsModuleNameUnchecked` region), every input of the four invalid classes
     (configuration violating a documented constraint, a graphql file that does not parse, an invalid
     schema, an operation invalid for the schema) makes `main.client` fail with one of
     ariadne-codegen's own exception classes and an EMPTY effect log.  (For invalid schemas the
@@ -925,7 +971,7 @@ theorem C17_partial (r : ClientRun) (hd : InDomain r) (hs : Supported r) (hi : I
     RejectedUpFront (client r) := by
   have hs' := hs
   simp only [Supported, not_or] at hs'
-  obtain ⟨_, _, hF4, _, hF6, _⟩ := hs'
+  obtain ⟨_, hF4, _, hF6, _⟩ := hs'
   have hbuild : r.schema.buildError = none := by
     simp only [trigSchemaBuildTypeError] at hF4
     cases hb : r.schema.buildError with
@@ -974,11 +1020,11 @@ example : (client wInvalidOperation).result =
 
 /-- the union of the theorem region and the finding regions is everything (by definition) -/
 theorem supported_or_triggered (r : ClientRun) :
-    Supported r ∨ trigFragmentsModuleName r.env r.cfg = true ∨ trigInvalidSchemaAssumed r.schema r.plugins = true ∨
+    Supported r ∨ trigInvalidSchemaAssumed r.schema r.plugins = true ∨
       trigSchemaBuildTypeError r.schema = true ∨ trigFragmentGenError r.queries = true ∨
       trigNoGraphqlFiles r = true ∨ trigClassSubstring r.env r.cfg = true := by
   unfold Supported
-  by_cases h : (trigFragmentsModuleName r.env r.cfg = true ∨ trigInvalidSchemaAssumed r.schema r.plugins = true ∨
+  by_cases h : (trigInvalidSchemaAssumed r.schema r.plugins = true ∨
      trigSchemaBuildTypeError r.schema = true ∨ trigFragmentGenError r.queries = true ∨
      trigNoGraphqlFiles r = true ∨ trigClassSubstring r.env r.cfg = true)
   · exact Or.inr h
@@ -987,31 +1033,45 @@ theorem supported_or_triggered (r : ClientRun) :
 /-- the witnesses sit inside their triggers -/
 example : trigInvalidSchemaAssumed wInvalidSchema.schema wInvalidSchema.plugins = true := by decide
 example : trigSchemaBuildTypeError wUnknownType.schema = true := by decide
-example : trigFragmentsModuleName wFragmentsModule.env wFragmentsModule.cfg = true := by decide
 example : trigNoGraphqlFiles wNoFiles = true := by decide
 example : trigFragmentGenError wMixinFragment.queries = true := by decide
 
-/-! ### the two configuration findings as invalid-but-accepted runs -/
+/-! ### the repaired configuration finding (regression theorem) and the open one -/
 
 theorem configInvalid_of (env : Env) (cfg : J) (s : ClientSettings) (hraw : (readRawClient env cfg).result = .ok s)
     (hn : ¬ Documented env s) : ConfigInvalid env cfg := by
   unfold ConfigInvalid; rw [hraw]; exact hn
 
-/-- F2: the configuration violates "names usable as Python modules", yet the whole command succeeds -/
-theorem fragments_module_invalid_but_accepted :
-    Invalid wFragmentsModule ∧ isOk (client wFragmentsModule).result = true := by
-  refine ⟨Or.inl ?_, by decide⟩
-  obtain ⟨s, hs⟩ := (isOk_iff _).mp (show isOk (readRawClient wFragmentsModule.env wFragmentsModule.cfg).result = true by decide)
-  refine configInvalid_of _ _ s hs (fun d => ?_)
-  have hn : (readRawClient wFragmentsModule.env wFragmentsModule.cfg).result.toOption.map (·.fragmentsModuleName) = some "not-valid" := by decide
-  rw [hs] at hn
-  simp only [Except.toOption, Option.map, Option.some.injEq] at hn
-  have := d.fragmentsModule
-  rw [hn] at this
-  revert this
-  decide
+/-- **C17_F2_witness_now_ok** (regression theorem for the repaired finding C17-F2): the old witness
+    — `fragments_module_name = "not-valid"`, an invalid configuration — now lies inside the region
+    of `C17_partial` and satisfies the property: the command fails in the settings phase with
+    `InvalidConfiguration` naming the value, and nothing was written. -/
+theorem C17_F2_witness_now_ok :
+    Invalid wFragmentsModule ∧ InDomain wFragmentsModule ∧ Supported wFragmentsModule ∧
+    RejectedUpFront (client wFragmentsModule) ∧
+    (client wFragmentsModule).result = .error (.settings, .config (.badIdentifier "not-valid")) := by
+  have hinv : Invalid wFragmentsModule := by
+    refine Or.inl ?_
+    obtain ⟨s, hs⟩ := (isOk_iff _).mp (show isOk (readRawClient wFragmentsModule.env wFragmentsModule.cfg).result = true by decide)
+    refine configInvalid_of _ _ s hs (fun d => ?_)
+    have hn : (readRawClient wFragmentsModule.env wFragmentsModule.cfg).result.toOption.map (·.fragmentsModuleName) = some "not-valid" := by decide
+    rw [hs] at hn
+    simp only [Except.toOption, Option.map, Option.some.injEq] at hn
+    have := d.fragmentsModule
+    rw [hn] at this
+    revert this
+    decide
+  have hdom : InDomain wFragmentsModule :=
+    ⟨fun e he => (by
+        have h : (getClientSettings wFragmentsModule.env wFragmentsModule.cfg).result = .error (.badIdentifier "not-valid") := by decide
+        rw [h] at he; injection he with he; subst he; rfl),
+     fun c hc => (by
+        have h : wFragmentsModule.schema.remote = .ok := rfl
+        rw [h] at hc; cases hc),
+     rfl⟩
+  have hsup : Supported wFragmentsModule := by simp only [Supported]; decide
+  exact ⟨hinv, hdom, hsup, C17_partial _ hdom hsup hinv, by decide⟩
 
-def prefEnv : Env := { exEnv with readText := fun _ => "class MyBaseClient:" }
 /-- F7: `base_client_name = "MyBase"` for a file that only declares `MyBaseClient` -/
 def wClassPrefix : ClientRun :=
   { wBase with env := prefEnv,
